@@ -323,7 +323,7 @@ def _np_elem(arr) -> int:
         return -1
 
 
-def observe(proto, rng_np, bindings: list[dict]) -> tuple[list[dict], dict]:
+def observe(proto, rng_np, bindings: Optional[list]) -> tuple[list[dict], dict]:
     """-> (contradictions, stats)"""
     import oracles
     import progs
@@ -367,6 +367,10 @@ def observe(proto, rng_np, bindings: list[dict]) -> tuple[list[dict], dict]:
                 input_syms.add(d.dim_param)
     out_names = [r["name"] for r in recs]
     contradictions = []
+    if bindings is None:                  # every input symbol gets a value; three rotations of a small pool
+        pool = [2, 3, 5, 7]
+        syms = sorted(input_syms)
+        bindings = [{sy: pool[(i + j) % len(pool)] for i, sy in enumerate(syms)} for j in range(3)]
     for b in bindings:
         try:
             feeds = progs.feeds_for(proto, rng_np, b)
@@ -408,6 +412,75 @@ def observe(proto, rng_np, bindings: list[dict]) -> tuple[list[dict], dict]:
     return contradictions, stats
 
 
+# ----------------------------------------------------------------------------- optimizer stream
+
+
+def optimize_proto(model):
+    """The REAL optimizer pipeline (`optimize_graph`) on a copy of a ModelProto."""
+    import onnx_ir as ir
+    import jax2onnx.converter.ir_optimizations as opt
+    irm = ir.from_proto(model)
+    irm = opt.optimize_graph(irm)
+    return ir.to_proto(irm)
+
+
+def check_optimizer_stream(chk: Check, rng: common.Rng, thorough: bool) -> int:
+    """Small ONNX graphs around the optimizer's rewrite patterns (harness/graphgen.py: transpose chains, reshape
+    pairs, elementwise DAGs, … with the operators read from the live op sets), annotated by ONNX shape inference,
+    go through the real `optimize_graph`; every annotation of the optimized model is then observed in ORT."""
+    import base64
+    import graphgen
+    rng_np = np.random.default_rng(chk.seed + 17)
+    n = 160 if not thorough else 2500
+    found = 0
+    stats = {"graphs": 0, "changed_by_optimizer": 0, "optimizer_raised": 0, "before_already_contradictory": 0,
+             "values": 0, "runs": 0, "not_observable": 0}
+    fams: dict = {}
+    for _ in range(n):
+        model, desc = graphgen.generate(rng)
+        fam = str(desc.get("family", desc.get("pattern", "?")))
+        stats["graphs"] += 1
+        try:
+            after = optimize_proto(model)
+        except Exception:
+            stats["optimizer_raised"] += 1          # loud failure: C16's subject
+            continue
+        changed = after.SerializeToString() != model.SerializeToString()
+        stats["changed_by_optimizer"] += changed
+        fams[fam] = fams.get(fam, 0) + 1
+        cons, st = observe(after, rng_np, None)
+        stats["values"] += st["values"]
+        stats["runs"] += st["runs"]
+        stats["not_observable"] += st["not_observable"]
+        chk.count({"op": "optimizer_stream", "family": fam, "guards": desc.get("guards", [])[:4],
+                   "nodes": len(model.graph.node), "values": st["values"]},
+                  nontrivial=bool(changed and st["runs"] > 0))
+        if not cons:
+            continue
+        before_cons, _ = observe(model, rng_np, None)
+        before_names = {c.get("name") for c in before_cons}
+        cons = [c for c in cons if c.get("name") not in before_names]
+        if not cons:
+            stats["before_already_contradictory"] += 1   # the generated graph itself was mis-annotated
+            continue
+        seen = set()
+        for c in cons:
+            key = {"kind": "annotation_contradiction", "what": c["what"], "producer": c.get("producer", "?"),
+                   "context": "optimizer", "component": fam, "in_loop_body": bool(c.get("lead", 0))}
+            ks = json.dumps(key, sort_keys=True)
+            if ks in seen:
+                continue
+            seen.add(ks)
+            found += 1
+            chk.finding(key, f"optimize_graph on a {fam} graph: value {c.get('origin')} (by {c.get('producer')}) declared "
+                             f"{c.get('elem')}:{c.get('dims')} but runtime {c.get('runtime', c.get('values'))} "
+                             f"[{c['what']}] for {c.get('binding')}",
+                        {"stream": "optimizer", "desc": desc, "contradiction": c,
+                         "model_b64": base64.b64encode(model.SerializeToString()).decode()})
+    chk.info("optimizer_stream", dict(stats, families=fams))
+    return found
+
+
 # ----------------------------------------------------------------------------- the check
 
 
@@ -428,6 +501,20 @@ def export_plan(rng: common.Rng, thorough: bool) -> list:
             cfg = progs.random_cfg(rng, d, opsets=[21, 22, 23, 24])
             cfg["mode"] = "proto"
             plan.append((d, cfg))
+    # layout chains around the optimizer's live operator sets: every live operator alone inside a non-symmetric
+    # transpose pair and inside a reshape pair, plus seeded chains of 1..3 operators
+    live_ops, _ = progs.live_layout_ops()
+    for op in live_ops:
+        for pair in ("transpose", "reshape"):
+            plan.append(({"kind": "layout", "name": f"layout_{pair}_{op}", "pair": pair, "ops": [op], "sym": False},
+                         dict(progs.default_cfg(), mode="proto")))
+        # the operator as the LAST of a chain of 2 / 3 (stale-predecessor refresh orders show only there)
+        for pair, chain in (("reshape_out", ["Tanh", op]), ("transpose_out", ["Tanh", op]),
+                            ("reshape", ["Relu", "Tanh", op])):
+            plan.append(({"kind": "layout", "name": f"layout_{pair}_{'_'.join(chain)}", "pair": pair, "ops": chain,
+                          "sym": rng.chance(0.5)}, dict(progs.default_cfg(), mode="proto")))
+    for _ in range(40 if not thorough else 600):
+        plan.append((progs.random_layout(rng), dict(progs.default_cfg(), mode="proto")))
     params = progs.plugin_params()
     if thorough:
         chosen = rng.shuffle(params)        # seeded order: a budget cut drops a different tail per seed
@@ -465,6 +552,12 @@ def run(chk: Check) -> None:
         else:
             unresolved.append(d)
     chk.log(f"phase bcast done at {round(time.time() - chk.t0, 1)} s")
+
+    # ---- (a') optimizer stream: generated graphs through the real optimize_graph, every annotation observed
+    concrete += check_optimizer_stream(chk, rng, thorough)
+    _, no_jax = progs.live_layout_ops()
+    chk.info("live_optimizer_ops_without_jax_layout_program", no_jax)
+    chk.log(f"phase optimizer stream done at {round(time.time() - chk.t0, 1)} s")
 
     # ---- (b) real post-processing, snapshotted on every export; (b') consistency; (c) observation
     plan = export_plan(rng, thorough)
@@ -625,6 +718,17 @@ def replay(path: str) -> int:
     import progs
     rep = json.loads(open(path).read())
     print(json.dumps(rep, indent=1)[:3000])
+    if rep.get("stream") == "optimizer" and "model_b64" in rep:
+        import base64
+        import onnx
+        model = onnx.ModelProto()
+        model.ParseFromString(base64.b64decode(rep["model_b64"]))
+        after = optimize_proto(model)
+        cons, st = observe(after, np.random.default_rng(rep.get("seed", 0)), None)
+        before_names = {c.get("name") for c in observe(model, np.random.default_rng(0), None)[0]}
+        cons = [c for c in cons if c.get("name") not in before_names]
+        print("contradictions now:", json.dumps(cons[:5], default=str)[:1500], st)
+        return 1 if cons else 0
     if "program" not in rep:
         return 0
     ex = progs.export(rep["program"], rep.get("config"))
